@@ -481,7 +481,12 @@ class Arbiter:
 
         # create new pidfile
         if self.cfg.pidfile is not None:
-            self.pidfile = Pidfile(self.cfg.pidfile)
+            pidname = self.cfg.pidfile
+            if self.master_pid != 0:
+                # still the new master of a pending upgrade: the configured
+                # name belongs to the old master until it is gone
+                pidname += ".2"
+            self.pidfile = Pidfile(pidname)
             self.pidfile.create(self.pid)
 
         # set new proc_name
